@@ -225,6 +225,8 @@ def assert_all_jobs_have_same_symbols(
 def make_pmappings_from_templates(
     jobs_with_similar_compatibilities: SameTemplateJobs,
 ) -> tuple[EinsumName, list[PmappingGroup], dict[UUID, Mapping]]:
+    from accelforge.model.main import InvalidMappingError
+
     jwsc = jobs_with_similar_compatibilities
 
     results = []
@@ -233,6 +235,14 @@ def make_pmappings_from_templates(
     for job in jobs_with_similar_compatibilities:
         try:
             result, tensor2mapping = make_tile_shapes(job)
+        except InvalidMappingError:
+            # The model rejected the template outright: its reservations do not depend on
+            # any tile shape and already oversubscribe a memory. It has no valid
+            # pmappings; other templates may still be valid.
+            pmapping_keep_rates.append(
+                (job.job_id, dict(job.pmapping_keep_rates), 0, 0)
+            )
+            continue
         except Exception as e:
             e.add_note(f"Einsum {jwsc.einsum_name} compatibility {job.compatibility}")
             raise
@@ -288,6 +298,8 @@ def make_pmappings_from_templates(
     fusable_tensors = jwsc.fusable_tensors
     einsum_name = jwsc.einsum_name
     metrics = jwsc.metrics
+    if not results:
+        return einsum_name, [], {}, pmapping_keep_rates
     drop_valid_reservations = not (Metrics.RESOURCE_USAGE & metrics)
     compatibility = jwsc.compatibility
 
